@@ -131,33 +131,12 @@ theorem body_get (f : Flags) (src : List Text) (i : Nat) (h : f.csv = true → i
 
 /-! ### a dump compiled again -/
 
-theorem parseFreq_zero {keep : Bool} {p : Text} {fs : List Text} {n : Nat} (h : parseFreq keep p fs = .ok n) :
-    (p.length == 1 && !keep) = true → n = 0 := by
-  intro hw
-  unfold parseFreq at h
-  simp only [hw, if_true] at h
-  exact (Except.ok.inj h).symm
-
 theorem parseLine_zeroFreq {d : Nat} {keep : Bool} {l : Text} {r : Rec} (h : parseLine d keep l = .ok r) :
     zeroFreq keep r = r := by
-  unfold parseLine at h
-  split at h
-  · cases h
-  · rename_i f0 fs _
-    cases hf : parseFreq keep (trimQ f0) (f0 :: fs) with
-    | error e => rw [hf] at h; cases h
-    | ok n =>
-      rw [hf] at h
-      cases hs : parseSyls ((tokens sylSep l).drop 2) with
-      | error e => rw [hs] at h; cases h
-      | ok syls =>
-        rw [hs] at h
-        have := Except.ok.inj h
-        subst this
-        unfold zeroFreq
-        by_cases hw : ((trimQ f0).length == 1 && !keep) = true
-        · simp [hw, parseFreq_zero hf hw]
-        · simp [hw]
+  obtain ⟨f0, fs, n, syls, _, _, _, hf, _, _, _, rfl⟩ := parseLine_ok_iff.mp h
+  obtain ⟨f1, m, _, _, rfl⟩ := parseFreq_ok_iff'.mp hf
+  unfold zeroFreq
+  by_cases hw : ((trimQ f0).length == 1 && !keep) = true <;> simp [hw]
 
 theorem validRecs_zeroFreq {f : Flags} {src : List Text} {r : Rec} (h : r ∈ validRecs f src) :
     zeroFreq f.keep r = r := by
